@@ -11,9 +11,14 @@ import Tickit.Driver.Common
   the implementation's bytes; a ghost record keeps the values the program last set successfully and the
   pen it asked for.  While the terminal is running the VT's modes and rendition must equal the ghost
   (`shadow_inv`, `resume_reestablishes`, `pen_survives_pause`); after pause, teardown and destruction
-  they must equal the VT's initial ones (`teardown_restores`); every read-back must equal the ghost
-  (`getctl_last_set`).  The contract (documented API use) is tracked explicitly: between pause and
-  resume nothing but resume/teardown/unref, after teardown nothing but unref, mouse modes 0…3, text
+  they must equal the VT's initial ones (`teardown_restores`) - the mode state at hand-over is a parameter of
+  the history (`new … vis=0`: the cursor is hidden; the replies fed must be those of such a terminal, and the
+  program then leaves cursor visibility alone: `handoverOk`); every read-back must equal the ghost
+  (`getctl_last_set`).  The contract is tracked explicitly (`phaseNextW`): the program may go on setting controls,
+  changing the pen and writing between pause and resume (the property quantifies over these in any order relative to
+  pause/resume cycles) - the terminal then shows a mixture of the restored state and what was set since, so only
+  the read-backs are judged until the next resume (running clauses) or teardown / destruction (restoration
+  clause); no second pause while paused, no resume without pause, after teardown nothing but unref, mouse modes 0…3, text
   payloads without control bytes; the RGB8 capability does not change while the pen asked for holds an RGB8
   colour.  Outside the contract only model = implementation is compared.
 
@@ -31,7 +36,7 @@ open Tickit Tickit.Driver Tickit.Modes
 structure St where
   sys   : Option Sys := none
   gone  : Bool := false
-  phase : Phase := .running
+  phase : PhaseW := .running
   vt    : VT := {}
   vt0   : VModes := {}
   lg    : Ghost := {}
@@ -182,7 +187,7 @@ def showPenVal (a : Attr) (v : Int) : String := if a.kind == .colour then showCo
 def checkRunning (rgb8 : Bool) (vt : VT) (lg : Ghost) : List String :=
   let m := vt.modes
   clause (m.altscreen ≠ decide (lg.alt ≠ 0)) s!"running: terminal altscreen is {b2s m.altscreen}, last set {lg.alt}" ++
-  clause (m.cursorVisible ≠ decide (lg.vis ≠ 0)) s!"running: terminal cursor visibility is {b2s m.cursorVisible}, last set {lg.vis}" ++
+  clause (m.cursorVisible ≠ decide (lg.vis ≠ 0)) s!"running: terminal cursor visibility is {b2s m.cursorVisible}, last set (or handed over with) {lg.vis}" ++
   clause ((m.mouse : Int) ≠ modeForMouse lg.mouse) s!"running: terminal mouse mode is {m.mouse}, last set {lg.mouse}" ++
   clause (m.sgrMouse ≠ decide (lg.mouse ≠ 0)) s!"running: terminal SGR mouse encoding is {b2s m.sgrMouse}, last mouse mode set {lg.mouse}" ++
   clause (m.keypadApp ≠ decide (lg.keypad ≠ 0)) s!"running: terminal keypad application mode is {b2s m.keypadApp}, last set {lg.keypad}" ++
@@ -205,12 +210,12 @@ def checkRestored (what : String) (vt : VT) (m0 : VModes) : List String :=
     | none => [])
 
 /-- Read-backs against the values last set. -/
-def checkGetctl (ctl : List String) (lg : Ghost) : List String :=
+def checkGetctl (visSet : Bool) (ctl : List String) (lg : Ghost) : List String :=
   match ctl with
   | [alt, vis, mouse, blink, shape, keypad, _, _, _, _, rgb8] =>
     clause (lg.rgb8.isSome ∧ rgb8 ≠ showOpt lg.rgb8) s!"getctl xterm.cap_rgb8 reads {rgb8}, last set {showOpt lg.rgb8}" ++
     clause (alt ≠ toString lg.alt) s!"getctl altscreen reads {alt}, last set {lg.alt}" ++
-    clause (vis ≠ toString lg.vis) s!"getctl cursorvis reads {vis}, last set {lg.vis}" ++
+    clause (visSet ∧ vis ≠ toString lg.vis) s!"getctl cursorvis reads {vis}, last set {lg.vis}" ++
     clause (mouse ≠ toString lg.mouse) s!"getctl mouse reads {mouse}, last set {lg.mouse}" ++
     clause (keypad ≠ toString lg.keypad) s!"getctl keypad_app reads {keypad}, last set {lg.keypad}" ++
     clause (lg.blink.isSome ∧ blink ≠ showOpt lg.blink) s!"getctl cursorblink reads {blink}, last set {showOpt lg.blink}" ++
@@ -225,8 +230,8 @@ def capOf (ctl : List String) : Bool := ctl.getLast? == some "1"
 def ghostStep (st : St) (op : Op) (implRet : String) : St :=
   let ret : Option Bool := if implRet = "1" then some true else if implRet = "0" then some false else none
   let lg := st.lg.step op ret st.ua
-  match phaseNext st.phase op with
-  | some ph => { st with lg := lg, phase := ph, inContract := st.inContract && opOk op }
+  match phaseNextW st.phase op with
+  | some ph => { st with lg := lg, phase := ph, inContract := st.inContract && opOk op && handoverOk st.vt0 op }
   | none => { st with lg := lg, inContract := false }
 
 /-- The contract about the RGB8 capability: it does not change while the pen asked for depends on it. -/
@@ -240,9 +245,16 @@ def capStep (st : St) (obs : ImplObs) : St :=
 def specAfter (st : St) (what : String) (obs : ImplObs) : String :=
   if !st.inContract then ""
   else
-    let g := if obs.ctl.isEmpty then [] else checkGetctl obs.ctl st.lg
-    let restored := st.gone || st.phase != .running
-    if restored then
+    -- on a terminal handed over with a hidden cursor the program (inside the contract) never sets cursor
+    -- visibility: there is no "value last set" to read back
+    let g := if obs.ctl.isEmpty then [] else checkGetctl st.vt0.cursorVisible obs.ctl st.lg
+    let restored := st.gone || st.phase == .paused || st.phase == .stopped
+    if !restored && st.phase == .pausedOps then
+      -- paused, and the program has called the library since: what it switched on is on the terminal now (to be
+      -- switched back by teardown / destruction, re-established by resume); only the read-backs are judged here
+      let v := if (st.vt.feed obs.held).ps ≠ .ground then ["output ends inside an escape sequence"] else []
+      "; ".intercalate (g ++ v)
+    else if restored then
       -- pause / teardown / destruction: judged on what has reached the terminal when the call returns
       let h := clause (!obs.held.isEmpty) s!"after {what}: {obs.held.length} bytes written by the call are still in the output buffer when it returns"
       let v :=
@@ -269,6 +281,7 @@ def initialModes (opts : List String) : VModes :=
     match o.splitOn "=" with
     | ["blink", v] => { m with cursorBlink := v ≠ "0" }
     | ["shape", v] => { m with cursorShape := v.toNat?.getD 0 }
+    | ["vis", v] => { m with cursorVisible := v ≠ "0" }
     | _ => m
 
 /-- `buf=N` on the `new` line; a toplevel instance that builds its own terminal gives it a buffer anyway. -/
@@ -305,7 +318,9 @@ def step (_st : St) (ts : List String) (impl : String) : St × String × String 
     let b := Sys.build (kind == "tickit" || kind == "tickitb")
     let m0 := initialModes rest
     -- the driver is started (and its queries flushed) before the output buffer is installed
-    let st1 : St := { sys := some b.1, vt := { modes := m0 }, vt0 := m0, inContract := m0.standard,
+    -- the mode state at hand-over is a parameter of the history (`vis=0`: the cursor is hidden)
+    let st1 : St := { sys := some b.1, vt := { modes := m0 }, vt0 := m0, inContract := m0.handover,
+                      lg := Ghost.handover m0,
                       obuf := { cap := bufferOf kind rest } }
     judge st1 "build" impl (modelObs b.1 none b.2 [])
   | _ =>
